@@ -12,6 +12,23 @@ from typing import Optional
 from . import astu
 
 
+_NESTED = None
+
+
+def _nested_info(rel, qual):
+  """(index among the nested functions of its parent, number of parameters, number of siblings) on the reference tree."""
+  global _NESTED
+  if _NESTED is None:
+    try:
+      import json
+      with open(os.path.join(os.path.dirname(os.path.abspath(__file__)), 'reference.json')) as fh:
+        _NESTED = json.load(fh).get('__nested__', {})
+    except (OSError, ValueError):
+      _NESTED = {}
+  v = _NESTED.get('%s|%s' % (rel, qual))
+  return tuple(v) if v else None
+
+
 class AnalysisError(Exception):
   """The checker cannot do its job (anchor vanished, floor not met, ...)."""
 
@@ -42,6 +59,7 @@ class Mod:
 
   def __init__(self, repo, rel, path, text=None):
     self.repo, self.rel, self.path = repo, rel, path
+    self.relocated = {}
     if text is not None:
       raw = text.encode('utf-8')
     else:
@@ -148,9 +166,51 @@ class Mod:
   def func(self, qual) -> Func:
     f = self._funcs.get(qual)
     if f is None:
+      f = self._relocate(qual)
+    if f is None:
       self._wide()
       raise AnalysisError('anchor vanished: function %s in %s' % (qual, self.rel))
     return self._rec(f)
+
+  def _children(self, parent):
+    pre = parent + '.'
+    kids = [f for q, f in self._funcs.items() if q.startswith(pre) and '.' not in q[len(pre):]]
+    return sorted(kids, key=lambda f: (f.node.lineno, f.node.col_offset))
+
+  def _relocate(self, qual, depth=0):
+    """A private (nested / underscore) function that was renamed or hoisted: find it again by its role.
+
+    (1) a unique function of the module with the same final name (leading underscores ignored) - hoisting / wrapping;
+    (2) the nested function at the same position, with the same arity, under the same (possibly relocated) parent,
+        when the parent still has as many nested functions as on the reference tree (vf/reference.json) - renaming.
+    The relocation is recorded in self.relocated; rules treat the result like the original anchor."""
+    if depth > 2:
+      return None
+    last = qual.rsplit('.', 1)[-1]
+    parent = qual.rsplit('.', 1)[0] if '.' in qual else None
+    if parent is not None and parent in self._classes:
+      return None   # methods are API: never guessed
+    cands = [f for q, f in self._funcs.items() if q.rsplit('.', 1)[-1].lstrip('_') == last.lstrip('_') and q.rsplit('.', 1)[0] not in self._classes]
+    if len(cands) == 1:
+      self.relocated[qual] = cands[0].qual
+      return cands[0]
+    if parent is None:
+      return None
+    pf = self._funcs.get(parent) or self._relocate(parent, depth + 1)
+    if pf is None:
+      return None
+    kids = self._children(pf.qual)
+    info = _nested_info(self.rel, qual)
+    if info is not None:
+      idx, npar, nkids = info
+      if len(kids) == nkids and idx < len(kids) and len(astu.params(kids[idx].node)) == npar:
+        self.relocated[qual] = kids[idx].qual
+        return kids[idx]
+      return None
+    if len(kids) == 1:
+      self.relocated[qual] = kids[0].qual
+      return kids[0]
+    return None
 
   def cls(self, qual) -> ast.ClassDef:
     self._wide()
